@@ -154,7 +154,59 @@ def extrinsic_only_rule(ck, F, ty, rule="V7"):
                 n, (" ; but it is also read as " + " | ".join(bad[:2])) if bad else ""))
 
 
-def run(ck, F, tier):
+def _v4(ck, F, eight):
+    # ---- V4 -------------------------------------------------------------------------------------------------
+    for ty in sorted(eight):
+        want = ("Jones" in ty, "PartialHardLimit" in ty, "Deg1Clip" in ty)
+        ev = mk_eval(F, ty)
+        got = {"jones": set(), "hardlimit": set(), "deg1": set()}
+        nsites = 0
+        for meth in ("send_var_messages", "send_check_messages", "update_check_messages_and_vars"):
+            b = F.body("<%s%s as %s>::%s" % (ARI, ty, TRAIT, meth))
+            for n in walk(b.value):
+                if n.get("k") != "call":
+                    continue
+                f = strip(n["f"])
+                is_hook = f.get("k") == "closure" or (f.get("k") == "path" and f.get("def") == "std::convert::identity")
+                if not is_hook:
+                    continue
+                nsites += 1
+                fv = AClosure(f, {}) if f.get("k") == "closure" else AFn("std::convert::identity")
+                def call(*a):
+                    ev.obls = []
+                    return ev.apply(fv, list(a), n)
+                if len(n["args"]) == 2:
+                    r1 = call(AInt(127, 127, "i8"), ABool(True, False))
+                    r2 = call(AInt(127, 127, "i8"), ABool(False, True))
+                    r3 = call(AInt(-127, -127, "i8"), ABool(True, False))
+                    clips = (repr(r1), repr(r2), repr(r3)) == ("i8[116,116]", "i8[127,127]", "i8[-116,-116]")
+                    ident = (repr(r1), repr(r2), repr(r3)) == ("i8[127,127]", "i8[127,127]", "i8[-127,-127]")
+                    got["deg1"].add("clip" if clips else ("identity" if ident else "other:%r" % ((r1, r2, r3),)))
+                    ck.inst("V4", "%s:deg1-placement" % ty, meth == "send_var_messages" and "input_llr" in repr(strip(n["args"][0]).get("name", "")), n["sp"],
+                            "the degree-one hook is applied to the channel LLR inside the variable rule, before the sum")
+                elif meth == "send_var_messages":
+                    r1 = call(AInt(1000, 1000, "i16"))
+                    r2 = call(AInt(-1000, -1000, "i16"))
+                    r3 = call(AInt(5, 5, "i16"))
+                    clips = (repr(r1), repr(r2), repr(r3)) == ("i16[127,127]", "i16[-127,-127]", "i16[5,5]")
+                    ident = (repr(r1), repr(r2), repr(r3)) == ("i16[1000,1000]", "i16[-1000,-1000]", "i16[5,5]")
+                    got["jones"].add("clip" if clips else ("identity" if ident else "other:%r" % ((r1, r2, r3),)))
+                else:
+                    r1 = call(AInt(100, 100, "i8"))
+                    r2 = call(AInt(99, 99, "i8"))
+                    r3 = call(AInt(-100, -100, "i8"))
+                    r4 = call(AInt(-99, -99, "i8"))
+                    hl = (repr(r1), repr(r2), repr(r3), repr(r4)) == ("i8[127,127]", "i8[99,99]", "i8[-127,-127]", "i8[-99,-99]")
+                    ident = (repr(r1), repr(r2), repr(r3), repr(r4)) == ("i8[100,100]", "i8[99,99]", "i8[-100,-100]", "i8[-99,-99]")
+                    got["hardlimit"].add("limit" if hl else ("identity" if ident else "other:%r" % ((r1, r2, r3, r4),)))
+        exp = {"jones": {"clip"} if want[0] else {"identity"}, "hardlimit": {"limit"} if want[1] else {"identity"}, "deg1": {"clip"} if want[2] else {"identity"}}
+        ck.inst("V4", ty + ":hooks", got == exp and nsites >= 4, F.body("<%s%s as %s>::send_var_messages" % (ARI, ty, TRAIT)).span,
+                "hooks applied (%d call sites): Jones clip %s, partial hard limit %s, degree-one clip %s ; the name says %s" % (
+                    nsites, sorted(got["jones"]), sorted(got["hardlimit"]), sorted(got["deg1"]),
+                    {k: sorted(v) for k, v in exp.items()}), {"impl": ty})
+
+
+def run(ck, F, tier, only=None):
     maxdeg = MAXDEG
     ck.explanation = (
         "Decided (S): V1 for each of the 16 8-bit arithmetics, under the property's preconditions (1..%d incoming messages with values in "
@@ -189,6 +241,9 @@ def run(ck, F, tier):
         if llr == "i8":
             eight.append(ty)
     ck.floor("V1", "8-bit arithmetics", len(eight), 16)
+    if only is not None and set(only) <= {"V4"}:
+        _v4(ck, F, eight)        # another property borrows the hook classification only
+        return
 
     msg = lambda: AStruct("Message", {"source": AInt(0, 2 ** 64 - 1, "usize"), "value": AInt(-127, 127, "i8")})
     smsg = lambda: AStruct("SentMessage", {"dest": AInt(0, 2 ** 64 - 1, "usize"), "value": AInt(-127, 127, "i8")})
@@ -391,52 +446,4 @@ def run(ck, F, tier):
                     "magnitude operation %s() applied to a %s value: the check rule must see the clipped extrinsic (the flooding rule's domain), "
                     "otherwise saturated inputs are ordered differently than in the flooding rule" % (wide[0][0], wide[0][1]))
 
-    # ---- V4 -------------------------------------------------------------------------------------------------
-    for ty in sorted(eight):
-        want = ("Jones" in ty, "PartialHardLimit" in ty, "Deg1Clip" in ty)
-        ev = mk_eval(F, ty)
-        got = {"jones": set(), "hardlimit": set(), "deg1": set()}
-        nsites = 0
-        for meth in ("send_var_messages", "send_check_messages", "update_check_messages_and_vars"):
-            b = F.body("<%s%s as %s>::%s" % (ARI, ty, TRAIT, meth))
-            for n in walk(b.value):
-                if n.get("k") != "call":
-                    continue
-                f = strip(n["f"])
-                is_hook = f.get("k") == "closure" or (f.get("k") == "path" and f.get("def") == "std::convert::identity")
-                if not is_hook:
-                    continue
-                nsites += 1
-                fv = AClosure(f, {}) if f.get("k") == "closure" else AFn("std::convert::identity")
-                def call(*a):
-                    ev.obls = []
-                    return ev.apply(fv, list(a), n)
-                if len(n["args"]) == 2:
-                    r1 = call(AInt(127, 127, "i8"), ABool(True, False))
-                    r2 = call(AInt(127, 127, "i8"), ABool(False, True))
-                    r3 = call(AInt(-127, -127, "i8"), ABool(True, False))
-                    clips = (repr(r1), repr(r2), repr(r3)) == ("i8[116,116]", "i8[127,127]", "i8[-116,-116]")
-                    ident = (repr(r1), repr(r2), repr(r3)) == ("i8[127,127]", "i8[127,127]", "i8[-127,-127]")
-                    got["deg1"].add("clip" if clips else ("identity" if ident else "other:%r" % ((r1, r2, r3),)))
-                    ck.inst("V4", "%s:deg1-placement" % ty, meth == "send_var_messages" and "input_llr" in repr(strip(n["args"][0]).get("name", "")), n["sp"],
-                            "the degree-one hook is applied to the channel LLR inside the variable rule, before the sum")
-                elif meth == "send_var_messages":
-                    r1 = call(AInt(1000, 1000, "i16"))
-                    r2 = call(AInt(-1000, -1000, "i16"))
-                    r3 = call(AInt(5, 5, "i16"))
-                    clips = (repr(r1), repr(r2), repr(r3)) == ("i16[127,127]", "i16[-127,-127]", "i16[5,5]")
-                    ident = (repr(r1), repr(r2), repr(r3)) == ("i16[1000,1000]", "i16[-1000,-1000]", "i16[5,5]")
-                    got["jones"].add("clip" if clips else ("identity" if ident else "other:%r" % ((r1, r2, r3),)))
-                else:
-                    r1 = call(AInt(100, 100, "i8"))
-                    r2 = call(AInt(99, 99, "i8"))
-                    r3 = call(AInt(-100, -100, "i8"))
-                    r4 = call(AInt(-99, -99, "i8"))
-                    hl = (repr(r1), repr(r2), repr(r3), repr(r4)) == ("i8[127,127]", "i8[99,99]", "i8[-127,-127]", "i8[-99,-99]")
-                    ident = (repr(r1), repr(r2), repr(r3), repr(r4)) == ("i8[100,100]", "i8[99,99]", "i8[-100,-100]", "i8[-99,-99]")
-                    got["hardlimit"].add("limit" if hl else ("identity" if ident else "other:%r" % ((r1, r2, r3, r4),)))
-        exp = {"jones": {"clip"} if want[0] else {"identity"}, "hardlimit": {"limit"} if want[1] else {"identity"}, "deg1": {"clip"} if want[2] else {"identity"}}
-        ck.inst("V4", ty + ":hooks", got == exp and nsites >= 4, F.body("<%s%s as %s>::send_var_messages" % (ARI, ty, TRAIT)).span,
-                "hooks applied (%d call sites): Jones clip %s, partial hard limit %s, degree-one clip %s ; the name says %s" % (
-                    nsites, sorted(got["jones"]), sorted(got["hardlimit"]), sorted(got["deg1"]),
-                    {k: sorted(v) for k, v in exp.items()}), {"impl": ty})
+    _v4(ck, F, eight)
